@@ -95,7 +95,7 @@ macro "lkleaf_close" : tactic =>
     | with_reducible exact LR.ok (by assumption))
 
 macro "lk_simp0" : tactic =>
-  `(tactic| simp only [*, ↓reduceIte, Bool.false_eq_true, LP.σ_lastLoc, LP.σ_refLoc, LP.σ_eofErr, LP.σ_replay])
+  `(tactic| simp only [*, ↓reduceIte, Bool.false_eq_true, LP.σ_lastLoc, LP.σ_refLoc, LP.σ_atAlias, LP.σ_eofErr, LP.σ_replay])
 
 theorem takeStringScalar_lk {P : LP} (hcl : Closed P) (cfg : Cfg) {c : Cur} (hi : P.Inv c) :
     LR P (takeStringScalar cfg c) (takeStringScalar cfg (P.σ c)) := by
